@@ -140,6 +140,8 @@ pub fn rand_mag(r: &mut Rng, maxk: u64) -> u128 {
 /// pools for histories: mostly 6 / 18 decimals
 pub fn gen_pool_hist(r: &mut Rng, stable: bool) -> PoolInfo {
     let mut p = gen_pool(r, stable);
+    // (rarely an asset with more than 18 decimals: creation accepts it, deposits work, quotes and swaps must refuse)
+    if r.chance(1, 30) { let k = r.below(p.asset_decimals.len() as u64) as usize; p.asset_decimals[k] = 19 + r.below(6) as u8; return p; }
     if !r.chance(1, 6) {
         let choices: [u8; 6] = [6, 6, 18, 18, 8, 12];
         let same = r.chance(1, 2);
